@@ -242,3 +242,17 @@ static void vs_reset_all(void)
     gs_udict_live = gs_uref_live = gs_uref_freed = 0; gs_uref_last_freed = NULL;
 }
 #endif
+
+/* ------------------------------------------------------------------ pipe construction helpers */
+#ifndef VPIPE_HELPERS
+#define VPIPE_HELPERS
+/* the manager table as its static initialiser gives it (statics are unknown under DFCC) */
+#define VPIPE_INIT_MGR(m, sig, alloc, input, control) do { \
+    (m).refcount = NULL; (m).signature = (sig); (m).upipe_err_str = NULL; (m).upipe_command_str = NULL; \
+    (m).upipe_event_str = NULL; (m).upipe_alloc = (alloc); (m).upipe_input = (input); \
+    (m).upipe_control = (control); (m).upipe_mgr_control = NULL; } while (0)
+/* the public part of a pipe as upipe_init + init_urefcount leave it, holding `refs` references */
+#define VPIPE_INIT_UPIPE(up, mgrp, rc, deadcb, refs) do { \
+    (up)->mgr = (mgrp); (up)->uprobe = &gs_probe; (up)->opaque = NULL; uchain_init(&(up)->uchain); \
+    (up)->refcount = (rc); (rc)->refcount = (refs); (rc)->cb = (deadcb); } while (0)
+#endif
